@@ -632,6 +632,7 @@ impl World {
             }
         }
 
+        self.neighbour_acted = self.last_fx.is_some();
         if let Some((_, dropped)) = self.last_fx {
             ctx.class(format!("neighbour_{}.{}", if dropped { "drop" } else { "clone" }, op.name()));
         }
@@ -938,7 +939,9 @@ impl World {
                 ctx.eval(clause);
                 // the value is compared by C01.value; here: the handle must still describe the very same storage
                 // (same handle bytes, pointer, capacity, reference count): a refused call has no effect at all
-                let same = a == b;
+                // (when a callback or the neighbour thread released or took a reference meanwhile, the count differs
+                // for that reason)
+                let same = if self.neighbour_acted { Obs { rc: None, ..a.clone() } == Obs { rc: None, ..b.clone() } } else { a == b };
                 if !same {
                     f.push(Failure::new(
                         clause,
